@@ -341,7 +341,7 @@ CHECK = Check(
           'on every 5th case. Non-trivial = >=2 stochastic nodes with a dependency between two of them and a non-empty history. '
           'sampler part: seeded Rejection/SMC runs repeated after a history and on a 2-worker multiprocessing client.'),
     # fuzz=False: both parts keep a real 2-worker process pool alive, which must not outlive a libFuzzer process
-    parts=[Part('graph', run_graph, strategy=strat_graph, examples={'quick': 800, 'thorough': 32000}, fuzz=False),
+    parts=[Part('graph', run_graph, strategy=strat_graph, examples={'quick': 1600, 'thorough': 32000}, fuzz=False),
            Part('sampler', run_sampler, strategy=strat_sampler, examples={'quick': 100, 'thorough': 4000}, fuzz=False,
                 shards={'quick': 4, 'thorough': 16})],
     assumptions=['dask / ipyparallel clients are not exercised (the statement names in-process and worker processes)',
